@@ -55,11 +55,18 @@ def generate(rng, tier, idx):
     two = rng.random() < 0.3
     table = vinelib.rand_vine_table(rng, 2, 2 if two else 6, 60, 200)
     table.pop('tie_cols', None)
+    if not two and rng.random() < 0.06:
+        table['n'] = rng.choice([1100, 1300])        # more rows than any internal row limit
+        table['margs'] = table['margs'][:4]
     d = len(table['margs'])
     a, b = rng.sample(POISONS, 2)
     pts = []
     for _ in range(rng.randint(3, 6)):
-        if rng.random() < 0.25:
+        r_ = rng.random()
+        if r_ < 0.1:
+            # legal points very close to a face of the cube
+            pts.append([rng.choice([1e-9, 1 - 1e-10, 0.3, 0.6, 0.5]) for _ in range(d)])
+        elif r_ < 0.3:
             pts.append([rng.choice([0.001, 0.01, 0.99, 0.999, 0.5]) for _ in range(d)])
         else:
             pts.append([round(rng.uniform(0.02, 0.98), 4) for _ in range(d)])
